@@ -246,3 +246,56 @@ Section Contract.
     - discriminate.
   Qed.
 End Contract.
+
+(* ---------- what reaches the handler: receive buffers ---------- *)
+Section Serve.
+  Variable mac : list N -> N.
+  Variable St : Type.
+  Variable do_announce : St -> sockaddr -> list fval -> outcome (St * response).
+  Variable do_scrape : St -> sockaddr -> Z -> list (list N) -> outcome response.
+  Notation handle := (handle L mac St do_announce do_scrape).
+  Notation serve := (serve L mac St do_announce do_scrape).
+
+  Definition fits (b : backend) (bytes : list N) : Prop :=
+    match b with
+    | Mio size => (length bytes <= size)%nat
+    | Uring len v6s => (length bytes <= uring_capacity len v6s)%nat
+    end.
+
+  (* a datagram that fits the backend's receive buffer is handled as it is *)
+  Lemma serve_is_handle_when_fits b cfg now st from bytes :
+    fits b bytes -> serve b cfg now st from bytes = handle cfg now st from bytes.
+  Proof.
+    unfold UdpHandler.serve, received, fits. destruct b as [size|len v6s]; intros H.
+    - rewrite firstn_all2 by exact H. reflexivity.
+    - destruct (Nat.ltb_spec (uring_capacity len v6s) (length bytes)); [lia|reflexivity].
+  Qed.
+
+  (* at most one reply and never more than the handler would give: serving is handling some
+     prefix of the datagram, or dropping it *)
+  Lemma serve_is_handle_of_prefix_or_drop b cfg now st from bytes :
+    serve b cfg now st from bytes = Ok (st, None)
+    \/ exists n, serve b cfg now st from bytes = handle cfg now st from (firstn n bytes).
+  Proof.
+    unfold UdpHandler.serve, received. destruct b as [size|len v6s].
+    - right. exists size. reflexivity.
+    - destruct (uring_capacity len v6s <? length bytes)%nat; [left; reflexivity|].
+      right. exists (length bytes). rewrite firstn_all. reflexivity.
+  Qed.
+
+  (* the io_uring backend drops EVERY datagram longer than its request buffers leave room for,
+     whatever it contains *)
+  Lemma uring_drops_long_datagrams len v6s cfg now st from bytes :
+    (uring_capacity len v6s < length bytes)%nat -> serve (Uring len v6s) cfg now st from bytes = Ok (st, None).
+  Proof.
+    unfold UdpHandler.serve, received. intros H.
+    destruct (Nat.ltb_spec (uring_capacity len v6s) (length bytes)); [reflexivity|lia].
+  Qed.
+End Serve.
+
+(* a well-formed scrape request naming n torrents is 16 + 20 n bytes long and parses *)
+Lemma scrape_request_length cid tid hs :
+  Forall (fun h => length h = 20%nat) hs -> length (write_request L (UdpCodec.RScrape cid tid hs)) = (16 + 20 * length hs)%nat.
+Proof.
+  intros H. unfold write_request. rewrite !app_length, i64_be_length, !i32_be_length, (concat_length_20 _ H). lia.
+Qed.
